@@ -218,6 +218,11 @@ Definition check_doc (prop : Z) (inp impl : sx) : sx :=
                            else if negb (all2 (fun (r : rund) (ob : irun) => c17_against unit_ (rd_hops r) (ir_hops ob)) (m_runs m) (i_runs d)) then [17; 2] else [])
                         else [])
                      else if prop =? 18 then (if c18_doc (f_rdns fl) rv d then [] else [18])
+                     (* C04 at the document: an end-to-end sample is a round trip exactly when a reply of that probe proved arrival
+                        (a hop flagged as destination by the run), 0 otherwise - never because some hop merely has the target's address *)
+                     else if (prop =? 4) && negb (Z.of_nat (length (filter (fun x => Qeqb x 0) (i_rtts d)))
+                                                   =? Z.of_nat (length (filter (fun q => match q_res q with Some r => negb (existsb hd_dest (rd_hops r)) | None => false end) e2es)))
+                          then [4; 2]
                      (* C03 at the document: every run keeps one entry per TTL of the run it came from (same count, same TTLs) *)
                      else if prop =? 3 then
                        (if all2 (fun (r : rund) (ob : irun) => zlist_same (map hd_ttl (rd_hops r)) (map ih_ttl (ir_hops ob))) (m_runs m) (i_runs d) then [] else [3; 2])
